@@ -176,7 +176,16 @@ func c15OtherNetworks(o *Out, r *rand.Rand) {
 				meta[share.AuthKey] = "good"
 			}
 			p.send(rawReq{id: id, seq: uint64(id), path: "Svc", method: "Do", ser: protocol.JSON, oneway: ow, meta: meta, args: &SArgs{ID: id, Mode: "ok"}})
-			msgs, closed := p.readAll(1, 400*time.Millisecond)
+			wait := 400 * time.Millisecond
+			if accept && !ow {
+				wait = 3 * time.Second // (returns as soon as the response is there)
+			}
+			msgs, closed := p.readAll(1, wait)
+			if accept && ow {
+				for w := 0; w < 600 && rig.invocations(id) == 0; w++ { // a one-way request: wait for the handler itself
+					time.Sleep(5 * time.Millisecond)
+				}
+			}
 			p.c.Close()
 			atomic.StoreInt32(&rejectAccept, 0)
 			invoked := rig.invocations(id)
